@@ -272,6 +272,13 @@ func (fr *Frame) applyContract(in ssa.Instruction, callee *ssa.Function, sp *Fun
 			continue
 		}
 		e.assume(mkImp(fr.pc, t))
+		if strings.Contains(t, "(forall ((q_") {
+			for _, idx := range e.specIdx {
+				if inst, ok := instantiateForalls(t, idx); ok {
+					e.assume(mkImp(fr.pc, inst))
+				}
+			}
+		}
 	}
 	if sp.CallsEach != "" {
 		fr.applyCallsEach(in, sp, env2)
